@@ -62,7 +62,7 @@ func TestC15Child(t *testing.T) {
 			fmt.Fprintf(out, "W %d oversized-publish-accepted\n", base)
 		}
 		for k := 0; k < 2; k++ {
-			if err := log.Append(&packet.Publish{Header: &packet.Header{}, Topic: []byte("t"), Payload: []byte(strconv.Itoa(base + k))}); err != nil {
+			if err := log.Append(&packet.Publish{Header: &packet.Header{}, Topic: c15topic(base + k), Payload: []byte(strconv.Itoa(base + k))}); err != nil {
 				fmt.Fprintf(out, "F append-after-refused-append %v\n", err)
 				os.Exit(4)
 			}
@@ -140,6 +140,13 @@ type round struct {
 	Phase  string `json:"phase"`
 	Append int    `json:"append_after"`
 }
+// c15topic: the stored messages carry different topic names, among them names that look like filters or belong to the
+// broker's own namespace (a log entry is whatever a node appended, from clients, other nodes or wills): none of them may
+// keep the consumer from handing over the entries behind it
+func c15topic(k int) []byte {
+	return []byte([]string{"t", "a/b", "a/+/b", "#", "$SYS/x", "a//b/"}[k%6])
+}
+
 type history struct {
 	N      int     `json:"initial_log_length"`
 	Rounds []round `json:"rounds"`
@@ -266,7 +273,7 @@ func appendMessages(dir string, from, n int) error {
 	}
 	defer log.Close()
 	for i := 0; i < n; i++ {
-		if err := log.Append(&packet.Publish{Header: &packet.Header{}, Topic: []byte("t"), Payload: []byte(strconv.Itoa(from + i))}); err != nil {
+		if err := log.Append(&packet.Publish{Header: &packet.Header{}, Topic: c15topic(from + i), Payload: []byte(strconv.Itoa(from + i))}); err != nil {
 			return err
 		}
 	}
